@@ -47,15 +47,4 @@ Undo(observed) ==
        /\ snap' = top.before
        /\ stack' = SubSeq(stack, 1, Len(stack) - 1)
 
-(***************************************************************************)
-(* Repetition.  RepCount is the requirement of C10: occurrences of the     *)
-(* current key in the history, now included, capped at three.  ScanCount   *)
-(* is the shape of the code's loop: from four plies back in steps of two,  *)
-(* comparing the reported hashes.                                          *)
-(***************************************************************************)
-RepCount(h) == Min(3, Cardinality({i \in 1..Len(h) : h[i].k = h[Len(h)].k}))
-ScanCount(h) == Min(3, 1 + Cardinality({i \in 1..Len(h) : i <= Len(h) - 4 /\ (Len(h) - i) % 2 = 0 /\ h[i].h = h[Len(h)].h}))
-
-\* a root is final when there is no legal move, the clock has run out, or the position occurred three times
-Final(p, h) == ~HasLegal(p) \/ p.hm >= 100 \/ RepCount(h) >= 3
 =============================================================================
